@@ -23,6 +23,11 @@ Params(pr) ==
                                           !.off = <<{"struct", "enum"}, {}, {}>>]
       [] pr = "s_mid_a3" -> [BaseP EXCEPT !.depth = 2, !.lens = <<{1, 2, 3, 4, 6, 7}, {1, 2, 4}, {}>>, !.counts = <<3, 0, 0>>,
                                           !.off = <<{"struct", "enum"}, {}, {}>>]
+      [] pr = "s_mid_e" ->  \* lists of 1..4 items, any non-last item may be the item without fields (zero bytes)
+                            [BaseP EXCEPT !.depth = 2, !.lens = <<{}, {1}, {}>>, !.cmin = <<1, 0, 0>>, !.counts = <<4, 0, 0>>,
+                                          !.off = <<{"str", "struct", "enum"}, {}, {}>>]
+      [] pr = "s_top_e" ->  [BaseP EXCEPT !.depth = 2, !.cmin = <<1, 0, 0>>, !.counts = <<4, 0, 0>>,
+                                          !.off = <<{"int", "struct"}, {"str", "seq", "struct"}, {}>>]
       [] pr = "s_mid_b2" -> [BaseP EXCEPT !.depth = 2, !.lens = <<{}, {1, 2, 4}, {}>>, !.counts = <<2, 0, 0>>,
                                           !.unset = <<VARK, ALLK, {}>>, !.off = <<{"str"}, {}, {}>>]
       [] pr = "s_mid_b3" -> [BaseP EXCEPT !.depth = 2, !.lens = <<{}, {1, 2, 4}, {}>>, !.counts = <<3, 0, 0>>,
@@ -43,6 +48,10 @@ Params(pr) ==
       [] pr = "r_idsb3" -> [BaseP EXCEPT !.idc = D3(3), !.idbytes = D3({0, 1, 16, 255}), !.ifills = D3({"ff"}), !.unset = D3(VARK)]
       [] pr = "r_mid_a" -> [BaseP EXCEPT !.depth = 2, !.lens = <<{1, 255, 256}, {1, 121, 122, 249, 250, 251}, {}>>, !.counts = <<2, 0, 0>>,
                                          !.fills = <<{}, {"zero"}, {}>>, !.unset = <<ALLK, {"bytes"}, {}>>, !.off = <<{"struct", "enum"}, {}, {}>>]
+      [] pr = "r_mid_e" ->  [BaseP EXCEPT !.depth = 2, !.lens = <<{}, {1}, {}>>, !.cmin = <<1, 0, 0>>, !.counts = <<4, 0, 0>>,
+                                          !.off = <<{"str", "struct", "enum"}, {}, {}>>]
+      [] pr = "r_top_e" ->  [BaseP EXCEPT !.depth = 2, !.cmin = <<1, 0, 0>>, !.counts = <<4, 0, 0>>,
+                                          !.off = <<{"int", "struct"}, {"str", "seq", "struct"}, {}>>]
       [] pr = "r_mid_b" -> [BaseP EXCEPT !.depth = 2, !.lens = <<{}, {1, 121, 122, 249, 250, 251}, {}>>, !.counts = <<2, 0, 0>>,
                                          !.unset = <<ALLK, {"bytes"}, {}>>, !.off = <<{"str"}, {}, {}>>]
       [] pr = "r_top" -> [BaseP EXCEPT !.depth = 3, !.lens = <<{}, {}, {1, 244, 245, 246}>>, !.fills = D3({"zero"}), !.counts = <<2, 1, 0>>,
@@ -54,8 +63,8 @@ Params(pr) ==
 RootOf(pr) ==
     CASE pr \in {"s_leaf", "r_leaf"} -> "Leaf"
       [] pr \in {"s_ids4", "s_ids6", "s_idsb2", "s_idsb4", "r_ids4", "r_ids6", "r_idsb2", "r_idsb3"} -> "Ids"
-      [] pr \in {"s_mid_a2", "s_mid_a3", "s_mid_b2", "s_mid_b3", "r_mid_a", "r_mid_b"} -> "Mid"
-      [] pr \in {"s_top2", "s_top3", "s_top_h", "r_top", "r_top_h"} -> "Top"
+      [] pr \in {"s_mid_a2", "s_mid_a3", "s_mid_b2", "s_mid_b3", "r_mid_a", "r_mid_b", "s_mid_e", "r_mid_e"} -> "Mid"
+      [] pr \in {"s_top2", "s_top3", "s_top_h", "r_top", "r_top_h", "s_top_e", "r_top_e"} -> "Top"
 
 ModePols == { <<"lib", "decl">>, <<"acc", "decl">>, <<"acc", "rev">>, <<"acc", "rot">> }
 
